@@ -22,9 +22,9 @@ CLAIMED = {
    technique=TECH + ": task-program x readiness/timer schedule search against a per-task step model under a virtual clock"),
  "C15": dict(
    level="fault_enumeration", design="5/C15",
-   text="Fault enumeration over a corpus of 113 valid frames covering every parser reachable from ethernet: every truncation length and every offset x {0x00, 0xff, bit flips, seeded values} (quick; all 255 other values in thorough), checksum-repairing variants for ICMPv6/IGMP, plus seeded multi-byte mutation, length-field extremes, splices and random bytes. Each damaged frame goes through PacketIn.parsed / ethernet(raw=...), the layer chain walk, str(), dump() and pack(); every raise is a finding identified by (operation, exception type, file, function). The enumerated part is partitioned exactly over the runs and reported exhaustive only when every chunk ran.",
-   note="Pure-function fault enumeration: the truncation/bit-flip of a received buffer is the fault model the property names; NET-world runs (C11/C19) additionally push damaged frames through the running controller. Signatures omit line numbers.",
-   technique=TECH + ": exhaustive single-fault enumeration (truncation, byte corruption) over a frame corpus with a no-raise oracle"),
+   text="Fault enumeration over a corpus of 113 valid frames covering every parser reachable from ethernet: every truncation length and every offset x {0x00, 0xff, bit flips, seeded values} (quick; all 255 other values in thorough), checksum-repairing variants for ICMPv6/IGMP, plus seeded multi-byte mutation, length-field extremes, splices and random bytes. Each damaged frame goes through PacketIn.parsed / ethernet(raw=...), the layer chain walk, str(), dump() and pack(); every raise is a finding identified by (operation, exception type, file, function). The enumerated part is partitioned exactly over the runs and reported exhaustive only when every chunk ran. In-system half (one scenario per run): 1-3 real switches under the real controller with l2_learning and/or discovery, miss_send_len 0..65535, hosts sending damaged corpus frames, random cases and forged discovery probes, an inter-switch wire that truncates or replaces a byte of what crosses it; nothing may raise out of the switch's receive or output path, no handler exception may be logged, no task may die, no control connection may be lost, and 35 virtual seconds after the hostile traffic stops a clean unicast is delivered exactly once.",
+   note="Pure-function fault enumeration: the truncation/bit-flip of a received buffer is the fault model the property names; the in-system half (checks/c15n.py) pushes the same damage through running switches, the controller and its PacketIn handlers (sampled, not enumerated). Signatures omit line numbers.",
+   technique=TECH + ": exhaustive single-fault enumeration (truncation, byte corruption) over a frame corpus with a no-raise oracle, plus seeded whole-network runs with a damaging wire and a liveness check after the last fault"),
  "C20": dict(
    level="exploration", design="5/C20",
    text="Seeded search over per-call socket outcome scripts {accept all, accept k of n, EAGAIN, fatal} x message sequences x thread interleavings: on the controller side the real DeferredSender.run loop runs on an engine-controlled thread against the real Connection.send on the scheduler thread (of_01.py traced at line granularity, real OpenFlow task loop for the closed-exactly-once part); on the switch side the real IO worker/loop with send and send_fast. Invariant at every yield point: bytes accepted by each socket are a prefix of the queued stream; at quiescence after the script ends they are the whole stream; after a fatal error exactly one ConnectionDown / close-handler call.",
@@ -87,7 +87,7 @@ CLAIMED = {
    technique=TECH + ": history search with an opaque-token buffer model checked after every step"),
  "C13": dict(
    level="exploration", design="5/C13, 5a",
-   text="Seeded search over request histories pushed through a simulated TCP byte stream (segmentation, delay, partial recv) into the real switch stack; every reply is decoded by an independent OF1.0 codec and paired by position and xid against a reference model. Sampling, not proof.",
+   text="Seeded search over request histories pushed through a simulated TCP byte stream (segmentation, delay, partial recv) into the real switch stack; every reply is decoded by an independent OF1.0 codec and paired by position and xid against a reference model (a statistics reply in parts flagged OFPSF_REPLY_MORE counts as one reply; 4% of the runs build tables whose flow statistics exceed one message); an exception logged from inside one of the switch's request handlers is an internal failure whatever was answered. Sampling, not proof.",
    note="Trusts models/of10wire.py and the C13 reference model as the reading of OpenFlow 1.0; socket/select/time are simulated; runs are forked children of one pre-imported parent.",
    technique=TECH + ": scripted controller peer vs real switch over simulated TCP, reply/request pairing oracle"),
 }
